@@ -102,14 +102,18 @@ def _textbook_spline_cumsum(xf, y, bc):
 def squad(cx, n=4, g=0, method="trapz", bc="natural", yshape="vec"):
     x, xf = _grid(cx, n, g)
     if yshape == "vec":
-        y = cx.sym("y", (n,))
-        dim, yl = -1, y
+        shape, dim = (n,), -1
     elif yshape == "rows":
-        y = cx.sym("y", (2, n))
-        dim, yl = -1, y
+        shape, dim = (2, n), -1
+    elif yshape == "cols":
+        shape, dim = (n, 2), 0
     else:
-        y = cx.sym("y", (n, 2))
-        dim, yl = 0, y.transpose(0, 1)       # yl: (..., nx)
+        # explicit (shape, dim): the sample dimension has length n, any position, positive or negative index
+        shape, dim = yshape
+        shape = tuple(n if e == "n" else e for e in shape)
+    y = cx.sym("y", shape)
+    d = dim % len(shape)
+    yl = y.movedim(d, -1)       # yl: (..., nx)
     kw = {"bc_type": bc} if method == "cspline" else {}
     with torch.no_grad():
         sq = SQuad(x, method=method, **kw)
@@ -117,12 +121,16 @@ def squad(cx, n=4, g=0, method="trapz", bc="natural", yshape="vec"):
         tot = sq.integrate(y, dim=dim)
         totk = sq.integrate(y, dim=dim, keepdim=True)
         cx.claim_true("cumsum has the shape of y", tuple(cs.shape) == tuple(y.shape))
-        csl = cs if dim == -1 else cs.transpose(0, 1)
+        csl = cs.movedim(d, -1) if tuple(cs.shape) == tuple(y.shape) else cs
+        cx.claim_true("integrate drops the sample dimension", tuple(tot.shape) == tuple(shape[:d]) + tuple(shape[d + 1:]),
+                      detail=str(tuple(tot.shape)))
         cx.claim_eq("cumsum starts at zero", csl[..., 0], torch.zeros_like(csl[..., 0]))
-        cx.claim_eq("last cumsum entry = integrate", csl[..., -1], tot)
-        cx.claim_true("keepdim keeps a singleton dimension", tuple(totk.shape) == tuple(y.shape[:dim % y.ndim]) + (1,) + tuple(y.shape[dim % y.ndim + 1:]),
+        if tuple(tot.shape) == tuple(csl.shape[:-1]):
+            cx.claim_eq("last cumsum entry = integrate", csl[..., -1], tot)
+        cx.claim_true("keepdim keeps a singleton dimension", tuple(totk.shape) == tuple(shape[:d]) + (1,) + tuple(shape[d + 1:]),
                       detail=str(tuple(totk.shape)))
-        cx.claim_eq("keepdim value", totk.squeeze(dim), tot)
+        if tuple(totk.shape) == tuple(shape[:d]) + (1,) + tuple(shape[d + 1:]) and tuple(tot.shape) == tuple(shape[:d]) + tuple(shape[d + 1:]):
+            cx.claim_eq("keepdim value", totk.squeeze(d), tot)
         # reference running integral
         ref = [torch.zeros_like(yl[..., 0])]
         if method == "trapz":
@@ -208,6 +216,12 @@ def configs(tier):
     for n, g in ((3, 0), (3, 2), (4, 0), (5, 1)):
         add("simpson/n%d/grid%d/vec" % (n, g), squad, n=n, g=g, method="simpson")
     add("simpson/n4/grid1/cols", squad, n=4, g=1, method="simpson", yshape="cols")
+    # size-1 batch dimensions in inner positions, negative dims other than -1
+    for method in ("trapz", "simpson", "cspline"):
+        add("%s/n3/grid0/shape(2,1,n)" % method, squad, n=3, g=0, method=method, yshape=((2, 1, "n"), -1))
+        add("%s/n3/grid0/shape(2,n,1)/dim1" % method, squad, n=3, g=0, method=method, yshape=((2, "n", 1), 1))
+        add("%s/n3/grid0/shape(2,n,1)/dim-2" % method, squad, n=3, g=0, method=method, yshape=((2, "n", 1), -2))
+    add("trapz/n3/grid0/shape(n,2,1)/dim-3", squad, n=3, g=0, method="trapz", yshape=(("n", 2, 1), -3))
     for bc in ("natural", "clamped", "not-a-knot"):
         add("cspline/%s/n4/grid0/vec" % bc, squad, n=4, g=0, method="cspline", bc=bc)
     add("cspline/natural/n3/grid2/rows", squad, n=3, g=2, method="cspline", bc="natural", yshape="rows")
